@@ -16,7 +16,8 @@ RULE = ("colour specs: 8 names, every int 0..255, every (r,g,b) in 0..5^3, g0..g
         "(no ESC) for 1-5 chunks assembled into a CHText; invalid specs (out-of-range ints, malformed tuples, "
         "g24/g-1/gx, unknown names, floats) must raise ValueError; part render_extend_history renders a text, extends it in "
         "place with same- and other-coloured chunks and renders it again. Non-trivial = a chunk that uses a "
-        "256-colour form, or >=2 effects, or a background; distinct by the list of chunk specs.")
+        "256-colour form, or >=2 effects, or a background; distinct by the list of chunk specs."
+        " Also: colour codes given as int-like objects (IntEnum member, int subclass with its own text form, bool: the code it equals or ValueError).")
 ASSUMPTIONS = [
     "basic colour k (30+k / 40+k) and 256-colour index k<8 are identified as the same colour",
     "bool and list colour specs are not documented inputs and are not generated",
